@@ -280,9 +280,8 @@ example : formatTree 3 exTree2 = some (.str "-- hi\n# c\n".toList) :=
 needs no tokenizer): stripping leading/trailing empty comment rows, re-indenting blank and
 comment rows to the following row, and inserting a blank row at a dedent each change
 nothing when applied to their own result — for every list of rows; and every rendered
-line is free of trailing blanks (so Comment tokens of a formatted text have none, which is
-what `C11_format_fixed_point_partial` needs of its `t`).  It does not follow that the whole
-pipeline is idempotent (the rows of the second run come from re-parsing the text). -/
+line is free of trailing blanks.  It does not follow that the whole pipeline is idempotent
+(the rows of the second run come from re-parsing the text). -/
 theorem C11_layout_passes_idempotent (iw : Nat) (rows : List Row) :
     stripEmptyRows (stripEmptyRows rows) = stripEmptyRows rows ∧
     indentBlanksAndComments (indentBlanksAndComments rows) = indentBlanksAndComments rows ∧
